@@ -115,3 +115,17 @@ Example timer_nonvacuous :
   snd (c_limit_reached 6999 c) = false /\ snd (c_limit_reached 7000 c) = true /\
   c_count (c_update 4000 c) = 1 /\ c_until 3500 c = 500.
 Proof. vm_compute. auto. Qed.
+
+(* which operations leave a counter running *)
+Lemma c_update_paused_eq now c : c_paused (c_update now c) = c_paused c.
+Proof. unfold c_update. destruct (c_paused c) eqn:E; [exact E|]. destruct (_ =? 0); [exact E|reflexivity]. Qed.
+Lemma c_restart_running now c : c_paused (c_restart now c) = false.
+Proof. reflexivity. Qed.
+Lemma c_reset_running now c : c_paused (c_reset now c) = false.
+Proof. reflexivity. Qed.
+Lemma c_until_some now (t : timer) : c_paused (t_inact t) = false -> t_until now t <> None.
+Proof.
+  intros H. unfold t_until. rewrite H. destruct (c_paused (t_ack t)); destruct (c_paused (t_nak t)); cbn; discriminate.
+Qed.
+Lemma omin_some a b : omin a b <> None.
+Proof. destruct a; cbn; discriminate. Qed.
